@@ -162,6 +162,16 @@ def report_cases() -> List[Dict[str, Any]]:
     for second_lot_day in (1, 200, 364):
         specs = [buy(0, timedelta(0), "1"), buy(1, second_lot_day * day, "1"), buy(2, (second_lot_day + 1) * day, "1"), sell(3, 365 * day + timedelta(seconds=1), "2.5")]
         out.append({"shape": "report: one disposal over lots on both sides of the threshold", "specs": specs})
+
+    def move(n: int, d: timedelta, sent: str, received: str) -> Dict[str, Any]:
+        return {"table": "intra", "timestamp": ts(d), "from_exchange": "X1", "from_holder": "H1", "to_exchange": "X2", "to_holder": "H1", "spot_price": "11", "crypto_sent": sent,
+                "crypto_received": received, "row": n, "sym": "", "unique_id": f"ev{n}"}
+
+    # disposals that do not come from the OUT table: the fee of a transfer (short and long holding), and income (never long-term)
+    for fee_days in ((100, 400), (364, 365), (366, 800)):
+        specs = [buy(0, timedelta(0), "3"), move(1, fee_days[0] * day, "1", "0.9"), move(2, fee_days[1] * day, "1", "0.8"),
+                 dict(buy(3, 500 * day, "0.5"), transaction_type="INTEREST"), sell(4, 900 * day, "1")]
+        out.append({"shape": "report: transfer fees on both sides of the threshold, income", "specs": specs})
     return out
 
 
